@@ -27,8 +27,8 @@ RULE = ("every case is one batch compile by the real isograph_cli in its own pro
         "kinds, entrypoints on non-fetchable types, pointers, server fields, twice with different directives, directive, "
         "refinement, variable, argument, @exposeField, __link/__refetch, @loadable, @updatable oddities, config variants); "
         "(d) raw token/line/character mutations inside iso literals, schemas and schema extensions of the four "
-        "checked-in projects, of generated projects and of the hostile base project. Oracle: no signal, no panic (stderr "
-        "'panicked at' / exit 101), child CPU <= 60 s (wall-clock watchdog firing first = inconclusive), exit 0 or a "
+        "checked-in projects, of generated projects and of the hostile base project. Oracle: no signal (a stack overflow "
+        "is re-run under gdb and named after the functions that recurse), no panic (stderr 'panicked at' / exit 101), child CPU <= 60 s (wall-clock watchdog firing first = inconclusive), exit 0 or a "
         "diagnostic on stderr. Non-trivial: the compile succeeded or reported a diagnostic other than a literal/schema "
         "syntax error; distinct by outcome fingerprint (diagnostic message shapes, or success + artifact kinds).")
 
